@@ -11,6 +11,11 @@ with n intervals.
  O3 the interval excluded from the unknowns is the last in sorted order
     and the constant 0 is appended at the end of the solution
  O4 the master-curve views average offset + crossing per level
+ O5 components of the overlap graph
+ O6 the rows written by rise / recession carry the fitted offset of their
+    interval and each crossing under the level id that keys it (shared
+    with C13.O3): the written offsets minimise the spread of the written
+    crossings only if both are the fit's
 """
 
 import ast
@@ -124,6 +129,9 @@ def run(ctx, chk, tier="quick"):
         "SQL views that define the master curve."
     )
     chk.assumptions = ["numpy.linalg.solve solves the system it is given", "conditioning / singularity are not decided"]
+    # ---------------- O6: the tables written hold the fit (offset of each interval, crossing under the level that keys it)
+    from .c13 import stored_rows_lineage
+    stored_rows_lineage(ctx, chk, "C05.O6")
     f = ctx.func("fit_offsets.find_offsets")
     flow = Flow.of(f)
     mod = f.module
